@@ -6,7 +6,14 @@ configurations; harness/c08 TestRecordC08 records free-running seeded schedules 
 kinds and LifecyclerTrace.tla validates every recorded store operation and every ring version against the
 specification.
 """
+import os
+
 import lifecycler_common as lc
+
+# CAS-retry extension (Stall / Unstall, MC_c08s, harness/c08 TestRecordConflicts): built and green by hand on the unchanged
+# tree (76 traces accepted, seed 1) and it flags seeded change C08-b1, but a complete `bin/check C08` run on the unchanged tree
+# was not finished before the round closed - enable with VERIF_C08_CONFLICTS=1 (or flip the default after one green run).
+CONFLICTS = os.environ.get("VERIF_C08_CONFLICTS", "") == "1"
 
 PROPERTY = "C08"
 META = {
@@ -17,12 +24,20 @@ META = {
                   "of the property as an invariant or action property. The real code is bound by record/validate: 1..5 real "
                   "lifecyclers of both kinds share one in-memory store under the synctest clock; every CAS is attributed to its "
                   "writer and logged at the commit, and TLC accepts a trace only if each event is an enabled action of its "
-                  "writer applied to the logged input and every property holds on every ring version ever written.",
+                  "writer applied to the logged input and every property holds on every ring version ever written. "
+                  "With VERIF_C08_CONFLICTS=1 (not in the default tiers yet) CAS retries are part of the universe: the specification has Stall / Unstall (a lifecycler inside a store call "
+                  "whose first attempt lost a race does nothing while the others and the environment go on; only the last "
+                  "evaluation of the callback is the action; MC_c08s, thorough), and for every CAS call of 6 (thorough: 12) scenarios the "
+                  "first attempt is lost once per interloper (a third lifecycler joins / a basic one registers / the bystander "
+                  "rewrites its entry or starts leaving / nobody writes) with token generators that propose the lowest free "
+                  "tokens, so whatever a lost attempt computed must not survive into the retry.",
     "level_note": "Exhaustive only within the stated bounds; larger populations and longer runs are sampled by seeded schedules "
                   "(record/validate), not enumerated. Trusted: TLC, testing/synctest, the recording kv.Client wrapper (one atomic "
                   "step per CAS), the rank compression of tokens, the scripted TokenGenerator. Time is whole seconds; steps never "
                   "fall exactly on a second boundary. ClaimTokensFor is exercised only under its documented precondition "
-                  "(source LEAVING, claimer registered). The gossip KV (token conflicts repaired by verifyTokens) is out of scope here.",
+                  "(source LEAVING, claimer registered). A lost CAS attempt is modelled as leaving no trace; a lifecycler is "
+                  "not sampled and not driven while it is stalled, no time passes during a stall, and at most one call per "
+                  "trace is retried (once). The gossip KV (token conflicts repaired by verifyTokens) is out of scope here.",
     "technique": "TLA+ specification model-checked by TLC; traces recorded from the real code validated against it by TLC",
     "design_ref": "DESIGN.md 2 C08",
 }
@@ -31,7 +46,8 @@ META = {
 def run(ctx):
     ctx.rule = ("one case = one recorded trace (a seeded schedule of start / external ChangeState incl. disallowed edges / "
                 "read-only / claim / CheckReady / stop / sleep / wipe / reject over 1..5 lifecyclers of both kinds) accepted by "
-                "LifecyclerTrace.tla; non-trivial = at least 5 committed ring writes; distinct = distinct seeds x index")
+                "LifecyclerTrace.tla, or a scenario with the first attempt of one CAS call of the target lost (scenario x incarnation x "
+                "call index x interloper); non-trivial = at least 5 committed ring writes; distinct = distinct seeds x index")
     ctx.assumptions = ["store = consul in-memory client behind a recording wrapper that makes each CAS one atomic step",
                        "virtual clock of testing/synctest; whole seconds, no step exactly on a second boundary",
                        "tokens rank-compressed through a 16-position boundary embedding; scripted TokenGenerator"]
@@ -39,9 +55,14 @@ def run(ctx):
         lc.model_check(ctx, ["MC_c08a", "MC_c08b_quick", "MC_c08r"], timeout=600)
         lc.negative_control(ctx, "MC_c08r_neg", "ReadyImpliesActive")
         lc.record_and_validate(ctx, "TestRecordC08", {"VERIF_TRACES": 100, "VERIF_NT_FIXED": 1}, timeout_tlc=600, label="record/validate")
+        if CONFLICTS:
+            lc.record_and_validate(ctx, "TestRecordConflicts", {"VERIF_CONFLICTS": "quick"}, timeout_tlc=600, label="CAS-retry record/validate")
     else:
-        lc.model_check(ctx, ["MC_c08a", "MC_c08a_t", "MC_c08b", "MC_c08r"], timeout=2400)
+        lc.model_check(ctx, ["MC_c08a", "MC_c08a_t", "MC_c08b", "MC_c08r"] + (["MC_c08s"] if CONFLICTS else []), timeout=2400)
         lc.negative_control(ctx, "MC_c08r_neg", "ReadyImpliesActive")
         lc.record_and_validate(ctx, "TestRecordC08", {"VERIF_TRACES": 1200, "VERIF_SYSLEN": 4}, timeout_go=1500, timeout_tlc=2400,
                                label="record/validate")
+        if CONFLICTS:
+            lc.record_and_validate(ctx, "TestRecordConflicts", {"VERIF_CONFLICTS": "full"}, timeout_go=1500, timeout_tlc=2400,
+                                   label="CAS-retry record/validate")
     return "model_checking"
